@@ -111,6 +111,39 @@ theorem escaping_same_language (cfg : Config) (hp : PlainPrintCI cfg) (env : Env
       Spec.fullMatch cfg.ci PE s = Spec.fullMatch cfg.ci P0 s :=
   esc_same_language cfg hp env ws stE st0 hE h0 hseg hne s hs
 
+/-- **C06 (verbose mode is presentation only — language level, all inputs without `-r`, at least one anchor)** for every
+subset of the class options, with or without capturing groups, `-e`, `-i`: the verbose text (flag line, one lexeme group
+per line, indentation; `#`, blank and every other white-space character escaped) is accepted by the model of `Regex::new`
+with the `x` flag set, the text without verbose mode is accepted without it, and the two compiled patterns match exactly
+the same strings of scalar values in full.  Chain: `parseLoop_x` (under `(?x)` the parser reads the text without its
+inter-lexeme white space), `indent_edit`/`XL.edit` (`indent_regexp` only edits such white space), `vx_expr` (the verbose
+layout is the plain layout plus line feeds between lexemes), `loop_printedA` (print → parse with the verbose escapes) -/
+theorem verbose_same_language (cfg : Config) (hp : PlainPrintCI cfg) (env : Env) (ws : List Str) (stV st0 : Stages)
+    (hV : regExpFrom (withVerb cfg true) env ws = .ok stV) (h0 : regExpFrom (withVerb cfg false) env ws = .ok st0)
+    (hseg : ∀ w ∈ storedCases cfg env ws, SegOK env w) (hne : ∃ t ∈ storedCases cfg env ws, t ≠ [])
+    (s : Str) (hs : ∀ c ∈ s, Scalar c) :
+    ∃ PV P0, Spec.parse (fmtRegExp (withVerb cfg true) stV.finalAst) = some (⟨cfg.ci, true⟩, PV) ∧
+      Spec.parse (fmtRegExp (withVerb cfg false) st0.finalAst) = some (⟨cfg.ci, false⟩, P0) ∧
+      Spec.fullMatch cfg.ci PV s = Spec.fullMatch cfg.ci P0 s :=
+  Grexv.verbose_same_language cfg hp env ws stV st0 hV h0 hseg hne s hs
+
+/-- **C06 (the verbose output carries its flag and stays valid under it)** for every well-formed expression the verbose
+text parses with the flags `x` and, if requested, `i`, to the very pattern the non-verbose text parses to -/
+theorem verbose_parses_to_same_pattern (cap esc i ns ne : Bool) (e : Expr) (hwf : e.WF) :
+    Spec.parse (fmtRegExp (cfgVerb cap esc i ns ne) e) =
+      some (⟨i, true⟩, Spec.catList (preA ns ++ (topItems cap esc e ++ postA ne))) ∧
+    Spec.parse (fmtRegExp (cfgAnch cap esc ns ne) e) =
+      some (⟨false, false⟩, Spec.catList (preA ns ++ (topItems cap esc e ++ postA ne))) :=
+  ⟨parse_verbose cap esc i ns ne e hwf, parse_printedA cap esc ns ne e hwf⟩
+
+/-- under `(?x)` the parser reads a text exactly as it reads the text without its inter-lexeme white space -/
+theorem x_mode_ignores_layout (f : Nat) (t u : Str) (h : XL t u) (st : List Spec.Frame) (al co : List Spec.Pat) :
+    Spec.parseLoop true f t st al co = Spec.parseLoop false f u st al co := parseLoop_x f t u h st al co
+
+/-- `indent_regexp` only deletes line feeds and puts blanks behind line feeds (text without carriage returns) -/
+theorem indentation_is_layout (cfg : Config) (t : Str) (hcr : 13 ∉ t) :
+    ∃ k0 V0, indentRegexp cfg t = blanks k0 ++ V0 ∧ Ed t V0 := indent_edit cfg t hcr
+
 mutual
 /-- every group of a pattern carries the given flag -/
 def Pat.GroupsAll (cap : Bool) : Spec.Pat → Prop
